@@ -5,6 +5,8 @@ import (
 	"testing"
 	"time"
 
+	"github.com/siderolabs/gen/optional"
+
 	"github.com/cosi-project/runtime/pkg/controller"
 	"github.com/cosi-project/runtime/pkg/resource"
 	"github.com/cosi-project/runtime/pkg/state"
@@ -14,6 +16,8 @@ import (
 	"verifharness/rt"
 	"verifharness/vh"
 )
+
+func optionalSome(id string) optional.Optional[resource.ID] { return optional.Some(id) }
 
 // parkingState lets the test park the establishment of one aggregated kind watch (the runtime establishes it from inside a
 // controller registration, while it holds its registration lock).
@@ -107,6 +111,99 @@ func TestRejectedRegistrationRace(t *testing.T) {
 			}
 		case <-time.After(5 * time.Second):
 			t.Fatal("the registered controller was not notified")
+		}
+
+		cancel()
+
+		select {
+		case <-runDone:
+		case <-time.After(5 * time.Second):
+			t.Fatal("Run did not return")
+		}
+	}
+}
+
+// TestAcceptedRegistrationRace: the same window with a registration that is ACCEPTED. Three controllers watch a kind (registered
+// one by one), a fourth one a single resource of it; a fifth registration (first the watch of a new kind - parked -, then an
+// input on the watched kind) is in progress while that resource changes. Everybody who had a matching input when the change
+// was committed has to be notified, whatever the registration does to the dependency database in the meantime.
+func TestAcceptedRegistrationRace(t *testing.T) {
+	for round := range 3 {
+		ctx, cancel := context.WithCancel(context.Background())
+
+		base := state.WrapCore(namespaced.NewState(inmem.Build))
+		ps := &parkingState{CoreState: base, parkType: vh.StrType, entered: make(chan struct{}), release: make(chan struct{})}
+
+		rtm, err := rt.NewRuntime(state.WrapCore(ps))
+		if err != nil {
+			t.Fatal(err)
+		}
+
+		woken := make(chan string, 256)
+
+		probe := func(name string, in controller.Input) *rt.QProbe {
+			return &rt.QProbe{
+				NameV: name, InputsV: []controller.Input{in}, Concurrency: 1,
+				ReconcileF: func(_ context.Context, _ controller.QRuntime, ptr resource.Pointer) error {
+					woken <- name + ":" + ptr.ID()
+
+					return nil
+				},
+			}
+		}
+
+		byID := rt.KindInput("n1", vh.IntType, controller.InputQPrimary)
+		byID.ID = optionalSome("x")
+
+		for _, p := range []*rt.QProbe{
+			probe("k1", rt.KindInput("n1", vh.IntType, controller.InputQPrimary)),
+			probe("k2", rt.KindInput("n1", vh.IntType, controller.InputQPrimary)),
+			probe("k3", rt.KindInput("n1", vh.IntType, controller.InputQPrimary)),
+			probe("id", byID),
+		} {
+			if err = rtm.RegisterQController(p); err != nil {
+				t.Fatal(err)
+			}
+		}
+
+		runDone := make(chan error, 1)
+
+		go func() { runDone <- rtm.Run(ctx) }()
+
+		time.Sleep(50 * time.Millisecond)
+
+		regDone := make(chan error, 1)
+
+		go func() {
+			late := probe("late", rt.KindInput("n1", vh.StrType, controller.InputQMapped))
+			late.InputsV = append(late.InputsV, rt.KindInput("n1", vh.IntType, controller.InputQPrimary))
+			regDone <- rtm.RegisterQController(late)
+		}()
+
+		<-ps.entered
+
+		if err = base.Create(ctx, vh.NewRes(vh.Key{NS: "n1", Typ: vh.IntType, ID: "x"}, vh.Obj{Spec: round, Phase: "running"})); err != nil {
+			t.Fatal(err)
+		}
+
+		time.Sleep(100 * time.Millisecond)
+
+		close(ps.release)
+
+		if rerr := <-regDone; rerr != nil {
+			t.Fatalf("the valid registration was rejected: %v", rerr)
+		}
+
+		need := map[string]bool{"k1:x": true, "k2:x": true, "k3:x": true, "id:x": true}
+		deadline := time.After(5 * time.Second)
+
+		for len(need) > 0 {
+			select {
+			case w := <-woken:
+				delete(need, w)
+			case <-deadline:
+				t.Fatalf("controllers with a matching input were not notified: %v", need)
+			}
 		}
 
 		cancel()
